@@ -27,6 +27,7 @@ class ModInfo:
         self.tree = ast.parse(self.src)
         self.consts = {}
         self.class_bases = {}
+        self.class_consts = {}
         self.imported_names = set()
         self.func_names = set()
         for node in self.tree.body:
@@ -40,6 +41,14 @@ class ModInfo:
                 pass
         elif isinstance(node, ast.ClassDef):
             self.class_bases[node.name] = [ast.unparse(b) for b in node.bases]
+            # literal class attributes (constants read as self.NAME)
+            cc = self.class_consts.setdefault(node.name, {})
+            for st in node.body:
+                if isinstance(st, ast.Assign) and len(st.targets) == 1 and isinstance(st.targets[0], ast.Name):
+                    try:
+                        cc[st.targets[0].id] = ast.literal_eval(st.value)
+                    except Exception:
+                        pass
         elif isinstance(node, (ast.FunctionDef, ast.AsyncFunctionDef)):
             self.func_names.add(node.name)
         elif isinstance(node, ast.ImportFrom):
